@@ -9,7 +9,7 @@ import traceback
 import z3
 
 from . import smt
-from .sym import (EvalCtx, SymBool, Unsupported, activate, explore, to_z3_bool)
+from .sym import (EvalCtx, PathLimit, SymBool, Unsupported, activate, explore, to_z3_bool)
 
 
 UNINTERPRETED_RELATIONS = ("KEXP",)
@@ -94,6 +94,8 @@ def make_replay(setup, call, clauses, allow_exc=()):
                 res, outcome = e, "exc"
             info["native_outcome"] = "returned" if outcome == "ret" else f"raised {type(res).__name__}: {res}"
             cl = by_name.get(clause_name)
+            import itertools
+            cc.fresh = itertools.count(10**6)            # clause-level ghost symbols are numbered from 10**6 (EvalCtx)
             try:
                 if clause_name == "returns-normally":
                     bad = outcome == "exc" and not isinstance(res, tuple(allow_exc)) and not any(
@@ -156,6 +158,10 @@ def native_sampling(setup, call, clauses, allow_exc=(), n=300, seed=12345):
     return None
 
 
+class HarnessError(BaseException):
+    """the checking harness itself failed (exit 3); deliberately not an Exception so no path handler swallows it"""
+
+
 def check_function(function, setup, call, clauses, *, mode, label="", bounded=False,
                    replay="auto", pre=(), max_paths=4096, allow_exc=(), z3_ms=None,
                    timeout_ms=10000):
@@ -171,10 +177,23 @@ def check_function(function, setup, call, clauses, *, mode, label="", bounded=Fa
         replay = make_replay(setup, call, clauses, allow_exc)
 
     def run(c):
-        ns = setup(c)
-        holder["ns"] = ns
-        c.ns = ns
-        res = call(ns)
+        try:
+            ns = setup(c)
+            holder["ns"] = ns
+            c.ns = ns
+            res = call(ns)
+        except (Unsupported, PathLimit):
+            raise
+        except Exception as e:
+            # an exception raised BY the harness text itself (innermost frame in rverif/props or harness.py) is a
+            # checker defect, never a verdict about the code under contract
+            tb = e.__traceback__
+            while tb is not None and tb.tb_next is not None:
+                tb = tb.tb_next
+            fn = tb.tb_frame.f_code.co_filename if tb is not None else ""
+            if ("/rverif/props/" in fn or fn.endswith("/rverif/harness.py")) and isinstance(e, (NameError, AttributeError, KeyError, IndexError, TypeError)):
+                raise HarnessError(f"{type(e).__name__}: {e} (raised in {fn}:{tb.tb_lineno})") from e
+            raise
         return ns, res
 
     t0 = time.time()
@@ -261,6 +280,15 @@ def check_function(function, setup, call, clauses, *, mode, label="", bounded=Fa
                 elif mode == "N":
                     # the harness itself ran on real NumPy/SciPy with concrete inputs: the labelled case is the failing input
                     rep = {"confirmed": True, "failing_case": label, "native": True}
+                elif not p.conds and not v.model:
+                    # a concrete case (no symbolic input at all): re-run it with the shims removed; if it fails there
+                    # too, the labelled case is the natively confirmed failing input
+                    try:
+                        r2 = make_replay(setup, call, clauses, allow_exc)(ns, {}, cl.name, p)
+                        if r2.get("confirmed") is True and "why" not in r2:
+                            rep = dict(r2, failing_case=label, native=True)
+                    except Exception:
+                        rep = None
                 model = {k: str(val) for k, val in (v.model or {}).items()}
                 uf = any(n in str(goal) for n in UNINTERPRETED_RELATIONS)
                 if rep is not None and rep.get("confirmed") is False and uf:
@@ -299,3 +327,23 @@ def check_function(function, setup, call, clauses, *, mode, label="", bounded=Fa
         out.append(ob(function, "vacuity", label, "undecided", mode=mode, bounded=bounded,
                       reason="no feasible path: contradictory precondition or harness"))
     return out, stats
+
+
+def check_enumeration(function, clause, label, f):
+    """A concrete, exhaustive enumeration run against the real code: f() returns True or a description of the first
+    failing case.  A failure is re-run with the shims removed; if it fails there too the obligation carries that case
+    as its (natively confirmed) failing input."""
+    from .install import native
+    obs, _ = check_function(function, lambda c: {}, lambda ns: f(), [post(clause, lambda ns, res: res is True)],
+                            mode="D", label=label, bounded=True, replay=None)
+    for o in obs:
+        if o["status"] == "violated":
+            try:
+                with native():
+                    r = f()
+            except Exception as e:           # noqa: the real code raised natively: that is the failing case
+                r = f"raised {type(e).__name__}: {e}"
+            o["reason"] = (o.get("reason") or "") + " | " + str(r)
+            if r is not True:
+                o["replayed"] = {"confirmed": True, "inputs": {"failing case": str(r)}, "native_outcome": "fails with real NumPy/SciPy too"}
+    return obs
